@@ -25,6 +25,7 @@ import compat  # noqa: F401  (puts the repository on sys.path, installs the get_
 import numpy as np
 
 import core
+import poke
 import wire
 
 from abmarl.sim.agent_based_simulation import (
@@ -598,6 +599,9 @@ class ConfigProp(core.Prop):
                     Grid(2, 2, overlapping=d2)
                 except Exception:  # noqa: BLE001
                     pass
+            # rejected assignments on the live grid: the accepted table stays in force (round 6)
+            poke.rejected(grid, [sorted((repr(k), repr(v)) for k, v in d.items()), repr(later)], share=2,
+                          only={"overlapping"})
             closed = _canon_table(grid.overlapping)
             agents = {e: (GridWorldAgent(id=f"x{e}", encoding=e), GridWorldAgent(id=f"y{e}", encoding=e)) for e in univ}
             bits = []
